@@ -210,6 +210,7 @@ class Runner:
         self.jobs: dict[int, dict] = {}  # id -> {'specs','steps'}
         self.starter: dict[str, int] = {}  # step key -> id of a job that starts with it
         self.rig_errors: list[str] = []
+        self._errored: set = set()
 
     def submit(self, specs: list[dict], steps: list[dict]) -> int:
         self.next_id += 1
@@ -235,7 +236,9 @@ class Runner:
         if r is None or r.get('skipped'):
             return None
         if 'rig_error' in r:
-            self.rig_errors.append(str(r['rig_error']))
+            if jid not in self._errored:
+                self._errored.add(jid)
+                self.rig_errors.append(str(r['rig_error']))
             return None
         return r
 
@@ -331,8 +334,33 @@ def stale_what(X: dict, Y: dict, data: str, params: list, attrs: list, got: dict
     )
 
 
-def canon_history(run: Runner, specs: list[dict], steps: list[dict], seq: dict, twins: list[dict], f: dict, reported: set, may_shrink: bool) -> tuple[Any, dict, str] | None:
-    """(canon, replay, what) for an in-sequence result that differs from the fresh one; None = of a class already reported."""
+def verified_stale(run: Runner, memo: dict, p: str, vx: int, vy: int, tlv: bytes, may_run: bool) -> tuple[dict, str] | None | bool:
+    """Is this attribute alone, parsed on the base shape with p=vx, served stale to the base shape with p=vy?
+    Asked of the real code once per (p, direction, TLV); (replay, what) | False | None (= not known, no budget)."""
+    key = (p, vx, vy, tlv.hex())
+    if key in memo:
+        return memo[key]
+    if not may_run:
+        return None
+    base = R.SPECS[0]
+    Xs = dict(base, name=f'{p}={vx}', **{p: bool(vx)})
+    Ys = dict(base, name=f'{p}={vy}', **{p: bool(vy)})
+    body = R.update_body(b'', tlv, R.NLRIS['10/24']).hex()
+    steps = [{'s': 0, 't': 2, 'body': body}, {'s': 1, 't': 2, 'body': body}]
+    r = run.run_case([Xs, Ys], steps)
+    if r is None:
+        return None
+    seq, twins = r
+    if has(failures_of(seq, twins), 'history', 1) and seq['steps'][1]['calls'] and seq['steps'][1]['calls'][0]['hit']:
+        code = tlv[1] if len(tlv) > 1 else 0
+        memo[key] = ({'specs': [Xs, Ys], 'steps': steps}, stale_what(Xs, Ys, tlv.hex(), [p], [code], seq['steps'][1]['render'], twins[1]['render']))
+    else:
+        memo[key] = False
+    return memo[key]
+
+
+def canon_history(run: Runner, specs: list[dict], steps: list[dict], seq: dict, twins: list[dict], f: dict, reported: set, may_shrink: bool, memo: dict) -> tuple[Any, dict, str] | None:
+    """(canon, replay, what) for an in-sequence result that differs from the fresh one."""
     i = f['step']
     st = steps[i]
     fresh = twins[i]['render']
@@ -353,51 +381,34 @@ def canon_history(run: Runner, specs: list[dict], steps: list[dict], seq: dict, 
     pX, pY = seq['steps'][j]['params'], seq['steps'][i]['params']
     pdiff = sorted(k for k in pX if pX[k] != pY[k])
     data = seq['steps'][i]['calls'][0]['data']
-    # already minimal (corpus form): two steps, same message, shapes differing in one field, one TLV
     sdiff = [k for k in R.SPEC_FIELDS if X.get(k) != Y.get(k)]
     t2 = _tlvs_of_update(bytes.fromhex(st['body'])) if st['t'] == 2 else None
+    # already minimal (corpus form): two steps, same message, shapes differing in one field, one TLV
     if len(steps) == 2 and steps[0]['body'] == steps[1]['body'] and len(sdiff) == 1 and t2 is not None and len(t2[1]) == 1:
-        canon = {'what': 'stale-attribute-parse', 'params': sdiff, 'attrs': real or [t2[1][0][1]]}
+        canon = {'what': 'stale-attribute-parse', 'params': sdiff, 'attrs': [t2[1][0][1]]}
         return canon, {'specs': specs, 'steps': steps}, stale_what(X, Y, data, sdiff, canon['attrs'], got, fresh)
-    # of a class already reported?  every differing attribute has a reported single-attribute form on a differing parameter
-    # (when one side is an error there is no attribute to compare: then one attribute of the block having such a form is enough)
-    def known(a: int) -> bool:
-        return any(json.dumps({'what': 'stale-attribute-parse', 'params': [p], 'attrs': [a]}, sort_keys=True) in reported for p in pdiff)
-
-    block_codes = sorted({c for _, c in t2[1]}) if t2 is not None else []
-    if (real and all(known(a) for a in real)) or (not real and any(known(a) for a in block_codes)):
-        return None
-    if not may_shrink:
-        return {'what': 'stale-attribute-parse', 'params': pdiff, 'attrs': real}, {'specs': [X, Y], 'steps': [dict(steps[j], s=0), dict(st, s=1)]}, stale_what(X, Y, data, pdiff, real, got, fresh)
-    pair_specs = [X, Y]
-    pair = [dict(steps[j], s=0), dict(st, s=1)]
-    r = run.run_case(pair_specs, pair)
-    if not r or not has(failures_of(*r), 'history', 1):
-        return fallback
-    params = sdiff
-    for k in sdiff:  # which session parameter matters: change one field of X towards Y at a time
-        Yk = dict(X, name=f'{X["name"]}~{k}')
-        Yk[k] = Y[k]
-        rk = run.run_case([X, Yk], pair)
-        if rk and has(failures_of(*rk), 'history', 1):
-            params, pair_specs, r = [k], [X, Yk], rk
-            break
-    attrs = real
-    if t2 is not None:  # which attribute: a block with that single TLV
-        wd, tlvs, nlri = t2
-        for code in real or sorted({c for _, c in tlvs}):
-            only = [x for x in tlvs if x[1] == code]
-            if len(only) != 1:
-                continue
-            body = R.update_body(wd, only[0][0], nlri).hex()
-            pair1 = [dict(pair[0], body=body), dict(pair[1], body=body)]
-            r1 = run.run_case(pair_specs, pair1)
-            if r1 and has(failures_of(*r1), 'history', 1):
-                attrs, pair, r = [code], pair1, r1
-                break
-    seq2, twins2 = r
-    canon = {'what': 'stale-attribute-parse', 'params': params, 'attrs': attrs}
-    return canon, {'specs': pair_specs, 'steps': pair}, stale_what(pair_specs[0], pair_specs[1], data, params, attrs, seq2['steps'][1]['render'], twins2[1]['render'])
+    # the stale collection was parsed under other parameters: which attribute of the block, alone, is served stale
+    # between two shapes that differ in that parameter only?  (asked of the real code, once per attribute value)
+    if pdiff and t2 is not None:
+        known_codes = {a for c in reported for a in json.loads(c).get('attrs', [])}
+        tlvs = sorted(t2[1], key=lambda x: (x[1] not in known_codes, x[1] not in real, x[1]))
+        unknown = False
+        for prm in pdiff:
+            for tlv, code in tlvs:
+                v = verified_stale(run, memo, prm, pX[prm], pY[prm], bytes(tlv), may_shrink)
+                if v is None:
+                    unknown = True
+                elif v:
+                    return {'what': 'stale-attribute-parse', 'params': [prm], 'attrs': [code]}, v[0], v[1]
+        if unknown:
+            return {'what': 'stale-attribute-parse', 'params': pdiff, 'attrs': real}, {'specs': [X, Y], 'steps': [dict(steps[j], s=0), dict(st, s=1)]}, stale_what(X, Y, data, pdiff, real, got, fresh) + ' (not reduced to one attribute: budget)'
+    # no single attribute explains it: the pair of messages as it is
+    pair_specs, pair = [X, Y], [dict(steps[j], s=0), dict(st, s=1)]
+    if may_shrink:
+        r = run.run_case(pair_specs, pair)
+        if not r or not has(failures_of(*r), 'history', 1):
+            return fallback
+    return {'what': 'stale-attribute-parse', 'params': pdiff or sdiff, 'attrs': real}, {'specs': pair_specs, 'steps': pair}, stale_what(X, Y, data, pdiff or sdiff, real, got, fresh)
 
 
 def canon_altered(run: Runner, specs: list[dict], steps: list[dict], seq: dict, f: dict, reported: set, may_shrink: bool) -> list[tuple[Any, dict, str]]:
@@ -728,6 +739,7 @@ def _run(ctx: Ctx, rng, quick: bool, wpool: 'R.Pool') -> None:
 
     # the oracle failures: canonical form, each class once (corpus cases come first and are already minimal)
     reported: set = set()
+    memo: dict = {}
     main_jobs = run.next_id
     unshrunk = 0
     for ci, f in pending_fail:
@@ -737,7 +749,7 @@ def _run(ctx: Ctx, rng, quick: bool, wpool: 'R.Pool') -> None:
         may_shrink = ctx.time_left() > 6 and run.next_id - main_jobs < (60 if quick else 400)
         try:
             if f['kind'] == 'history':
-                res = canon_history(run, c['specs'], c['steps'], seq, twins, f, reported, may_shrink)  # type: ignore[arg-type]
+                res = canon_history(run, c['specs'], c['steps'], seq, twins, f, reported, may_shrink, memo)  # type: ignore[arg-type]
                 results = [res] if res else []
             else:
                 results = canon_altered(run, c['specs'], c['steps'], seq, f, reported, may_shrink)  # type: ignore[arg-type]
